@@ -241,6 +241,23 @@ CLAIMS.update({
         ref="§7 C19"),
 })
 
+CLAIMS.update({
+    "C15": dict(
+        technique="Lean 4 fixpoint theorems per kind assembled from the formatter / reader theorems (digit string idempotence, separators read back, duration parts read back, based digits) + kernel-decided word obligations on the regenerated tables + print-then-enter enumeration over kinds x configurations x languages",
+        text="Proof: printing is a fixpoint at the digit level - the digits printed for any value at n decimals denote q/10^n and printing THAT value again "
+             "gives the same digits (fixed_idempotent), the printed text reads back to those digits under the separators it was printed with "
+             "(printed_reads_back via C08.read_write, shape by C07.format_shape) - this covers numbers, percentages, money and unit amounts; every "
+             "printed duration part reads back to its printed length unless it is `12 months` (readPart_eq, with C10.greedy_sum the parts sum to the "
+             "duration), kernel-checked witness that 364 days print as `12 months 4 days` and read as 369 days (months12_witness, finding C15-J1); "
+             "based integers by C13.print_read; data: every unit is printed with a word its literals are read with, compared lower-cased as the reader "
+             "does, and printing month names are configured spellings (unit_words_readable, print_months_are_spellings). That every printed FORM lexes "
+             "to one token of its kind is string level: decided by entering the printed form of generated values of all eight kinds under 6-40 "
+             "separator / digit configurations in en and tr. PARTIAL: two open findings (C15-J1 12 months, C15-J2 SEK prints `kr` which reads as DKK - "
+             "a conflict inside config.json); one defect repaired in /repo (sign of a value that rounds to zero).",
+        note="Trusted: Lean kernel + 3 axioms; lexer regexes not modelled; date-times are not among the property's kinds; readable currencies = those config.json gives the reader an alias or symbol for.",
+        ref="§7 C15"),
+})
+
 NOT_YET = {}
 
 
